@@ -233,6 +233,22 @@ bool Model::replaceUnits(size_t index, const UnitsPtr &units)
         return false;
     }
 
+    auto oldUnits = Model::units(index);
+    if (oldUnits == nullptr) {
+        return false;
+    }
+    if (oldUnits == units) {
+        return true;
+    }
+
+    // Prevent listing twice or in multiple models: the replacement leaves the model that holds it.
+    if (units->hasParent()) {
+        auto otherParent = std::dynamic_pointer_cast<Model>(units->parent());
+        otherParent->removeUnits(units);
+        // The replacement may have been listed before the units to replace.
+        index = size_t(std::find(pFunc()->mUnits.begin(), pFunc()->mUnits.end(), oldUnits) - pFunc()->mUnits.begin());
+    }
+
     if (removeUnits(index)) {
         pFunc()->mUnits.insert(pFunc()->mUnits.begin() + ptrdiff_t(index), units);
         units->pFunc()->setParent(shared_from_this());
